@@ -135,6 +135,12 @@ def gen_world(rng: random.Random, tier: str) -> dict:
             # a different number of reference channels per dataset (the split itself does not require equal counts)
             w["ref_ind"] = [rng.sample(range(c), rng.randint(1, c - 1)) for c in nch]
         w["ref_as"] = rng.choices(["list", "tuple", "npint"], weights=[0.75, 0.15, 0.10])[0]
+        if nds >= 2 and rng.random() < 0.10:
+            # one reference-index list OBJECT shared by all datasets, whatever their channel counts
+            k = rng.randint(1, min(nch) - 1) if min(nch) > 1 else 1
+            shared = rng.sample(range(min(nch)), k)
+            w["ref_ind"] = [list(shared) for _ in nch]
+            w["share_ref_obj"] = True
         if nds >= 2 and rng.random() < 0.06:
             # degenerate but legal: the very same array object (and reference list object) given for two datasets
             w["ndat"][1], w["nch"][1], w["ref_ind"][1] = w["ndat"][0], w["nch"][0], list(w["ref_ind"][0])
@@ -505,6 +511,8 @@ def run_case(seed, tier="quick", case=None, known=()):
         user_ref = [[np.int64(c) for c in r] for r in user_ref]
     if user_ref is not None and world.get("alias01") and len(user_ref) >= 2:
         user_ref[1] = user_ref[0]
+    if user_ref is not None and world.get("share_ref_obj") and all(list(map(int, r)) == list(map(int, user_ref[0])) for r in user_ref):
+        user_ref = [user_ref[0]] * len(user_ref)
     world["_user_list"], world["_user_ref"] = user_list, user_ref
     m = Model(world, arrays)
     log = EventLog(seed)
@@ -780,6 +788,10 @@ def shrink_candidates(case):
     if w.get("alias01"):
         w2 = copy.deepcopy(w)
         w2.pop("alias01")
+        yield {"world": w2, "ops": ops}
+    if w.get("share_ref_obj"):
+        w2 = copy.deepcopy(w)
+        w2.pop("share_ref_obj")
         yield {"world": w2, "ops": ops}
     if w.get("ref_as", "list") != "list":
         w2 = copy.deepcopy(w)
